@@ -143,23 +143,12 @@ theorem dumpVotes_spec {σ σ' : State} {s : Nat} {vs : List UVote} (hQ : QRoot 
 /-- the staging value the tree holds for (r, p) -/
 def stagingAt (root : Root) (r p : Nat) : Option Nat := (aget root.rounds r).bind (fun rr => stagingOf rr p)
 
-theorem upd_not_keep {pl : PlayerF} (rr : RoundR) {p : Nat} (hk : keepPeriod pl p = false) :
-    aget (rr.upd pl p).periods p = none := by
-  unfold RoundR.upd
-  simp only []
-  rw [aget_filter_key _ (keepPeriod pl) p, hk]
-  rfl
-
 theorem upd_stagingOf {pl : PlayerF} {rr : RoundR} {p v : Nat} (h : stagingOf rr p = some v) :
-    stagingOf (rr.upd pl p) p = some v ∨ keepPeriod pl p = false := by
+    stagingOf (rr.upd pl p) p = some v := by
   unfold stagingOf at h ⊢
   cases hg : aget rr.periods p with
   | none => rw [hg] at h; cases h
-  | some pr =>
-    rw [RoundR.upd_aget_of_some hg]
-    cases hk : keepPeriod pl p with
-    | true => left; rw [hg] at h; simpa using h
-    | false => right; rfl
+  | some pr => rw [RoundR.upd_aget_of_some hg]; rw [hg] at h; exact h
 
 theorem readStaging_reads {pl : PlayerF} {rr rr' : RoundR} {p v : Nat} {st : Staged} (hs : stagingOf rr p = some v)
     (h : rr.readStaging pl p = .ok (rr', st)) : st.proposal = v := by
@@ -176,21 +165,12 @@ theorem readStaging_reads {pl : PlayerF} {rr rr' : RoundR} {p v : Nat} {st : Sta
   rename_i pr hpr
   simp only [Except.ok.injEq, Prod.mk.injEq] at hat
   obtain ⟨_, rfl⟩ := hat
-  rcases upd_stagingOf (pl := pl) hs with h' | h'
-  · unfold stagingOf at h'
-    rw [hpr] at h'
-    simp only [Option.map_some, Option.some.injEq] at h'
-    show (pr.upd 0).ptracker.staging = v
-    rw [(PeriodR.upd_fields pr 0).1]; exact h'
-  · rw [upd_not_keep rr h'] at hpr; cases hpr
-
-theorem readStaging_nil {pl : PlayerF} {rr : RoundR} {p : Nat} (hk : keepPeriod pl p = false) :
-    ∀ res, rr.readStaging pl p ≠ .ok res := by
-  intro res h
-  unfold RoundR.readStaging RoundR.atPeriod at h
-  simp only [] at h
-  rw [upd_not_keep rr hk] at h
-  cases h
+  have h' := upd_stagingOf (pl := pl) hs
+  unfold stagingOf at h'
+  rw [hpr] at h'
+  simp only [Option.map_some, Option.some.injEq] at h'
+  show (pr.upd 0).ptracker.staging = v
+  rw [(PeriodR.upd_fields pr 0).1]; exact h'
 
 theorem staged_reads {σ σ' : State} {r p v : Nat} {st : Staged} (hs : stagingAt σ.root r p = some v)
     (h : staged P σ r p = .ok (σ', st)) : st.proposal = v := by
@@ -221,9 +201,7 @@ theorem staged_reads {σ σ' : State} {r p v : Nat} {st : Staged} (hs : stagingA
     split at hrr
     · simp only [Option.some.injEq] at hrr
       subst hrr
-      rcases upd_stagingOf (pl := σ.pl) hs with h' | h'
-      · exact readStaging_reads h' hfa
-      · exact absurd hfa (readStaging_nil h' _)
+      exact readStaging_reads (upd_stagingOf (pl := σ.pl) hs) hfa
     · cases hrr
 
 /-! ### proposalManager -/
